@@ -364,6 +364,9 @@ func runServerHs(c *hsCase) (obs hsObs) {
 		for {
 			var m map[string]interface{}
 			if err := peer.dec.Decode(&m); err != nil {
+				// the server ended the stream (close_notify under TLS, or closed): a client closes too,
+				// which lets the server's lingering close finish at once
+				pc.Close()
 				return
 			}
 			if _, ok := m["state"]; !ok {
